@@ -29,10 +29,18 @@ def scenario(tier):
                 sym.assume((not differ) or age >= 10 * DAY)
             else:
                 sym.assume(pse.SymBool(pse.z3.Implies(differ.z, pse._z(age) >= 10 * DAY)))
+        # the file's modification time may lie in the hour that is repeated when daylight saving ends (second occurrence: standard time)
+        rep = sym.bool("file_time_in_repeated_hour") if has_dst else False
+        if has_dst:
+            if isinstance(rep, bool):
+                sym.assume((not rep) or (not dst_file))
+                sym.assume((not rep) or age >= 3 * DAY)
+            else:
+                sym.assume(pse.SymBool(pse.z3.Implies(rep.z, pse.z3.And(pse.z3.Not(pse._zb(dst_file)), pse._z(age) >= 3 * DAY))))
         size = sym.int("size", 0, 3)
         now = b.current_now()
         t_file = now - age
-        b.set_zone(std, dst, dst_now, dst_file, t_file)
+        b.set_zone(std, dst, dst_now, dst_file, t_file, rep)
         b.mkfile("R/clip.mov", 5, size=size, mtime=t_file)
         r = b.run("create", root="R", h=["md5", "c4"] if tier != "quick" else ["md5"], v=False)
         b.require(r.exit == 0 and r.exc is None, "create-exit-0", str(r))
@@ -83,7 +91,7 @@ def harnesses(tier):
                          "daylight offset; DST flag of 'now' and of the file's modification instant symbolic and independent; file age symbolic "
                          "up to 300 days: size / lastmodificationdate / hashdate / creationdate / manifest name checked against instants and offsets",
                     bounds={"std offset": "-840..840 minutes", "dst": "std or std+1h", "file age": "0..300 days",
-                            "assumption": "instants whose DST flags differ are >= 10 days apart"},
+                            "assumption": "instants whose DST flags differ are >= 10 days apart", "repeated hour": "file instant optionally in the second occurrence of the hour repeated at DST end"},
                     outside=["zones with sub-minute offsets", "historical zone rule changes (std offset itself changing)", "mtimes with sub-second parts",
                              "dates before 1970"],
                     stubs=["time.timezone/altzone/localtime, datetime.now/fromtimestamp/replace/astimezone/isoformat/strftime: clock+zone model"])]
